@@ -265,7 +265,8 @@ def run(case, st):
         if len(names) != nfiles:
             bad.append(('file-count', '%d files issued (%r), the split level %s gives %d file-producing units' % (len(names), names[:8], case['level'], nfiles)))
         badchars = case['bad'][0] if case.get('bad') else ': #$%^&*!~`"\'=?/{}[]()|<>;\\,.'
-        lit = set(re.sub(r'\$\{?\w+\}?(\(\d+\))?', '', case['template']))
+        # characters the template itself spells out are the author's business; blanks, commas and brackets only separate the names of a template
+        lit = set(re.sub(r'\$\{?\w+\}?(\(\d+\))?', '', case['template'])) - set(' \t,[]')
         for n in names:
             stem = n.rsplit('.', 1)[0]
             offending = [c for c in stem if c in badchars and c not in lit]
